@@ -321,6 +321,13 @@ pub open spec fn trame_view(s: Seq<Box<dyn Message>>) -> Seq<MV> {
     Seq::new(s.len(), |i: int| s[i].mv())
 }
 
+/// TRUSTED (explicit form of the unsizing coercion `Box<T> -> Box<dyn Message>`; Verus accepts the implicit one but then knows nothing about
+/// the coerced value when T is generic): dynamic dispatch on the trait object runs T's implementation, so the three spec functions agree
+#[verifier::external_body]
+pub fn box_dyn<T: Message + 'static>(b: Box<T>) -> (r: Box<dyn Message>)
+    ensures r.mv() == b.mv(), r.wf() == b.wf(), r.rwf() == b.rwf()
+{ unimplemented!() }
+
 // ---------------------------------------------------------------------------------------------------------------------------------------
 // TRUSTED collection stand-ins (indexmap / std::collections)
 
